@@ -48,7 +48,7 @@ def rdCost : String → Option Nat
   | "state" => some ReadIdentityStateGas
   | "pubkey" => some ReadStateGas
   | "delegatee" => some ReadStateGas
-  | "discrimination" => some (ReadStateGas + ReadGlobalStateGas)   -- `DiscriminationFlags` calls `e.Epoch()` (`env.go:204`)
+  | "discrimination" => some ReadStateGas   -- followed by `e.Epoch()` (`env.go:204`): a second charge, see `step`
   | _ => none
 
 /-- `^[\x00-\x7F]{1,32}$` (`env.go:24`) on the hex token of the name -/
@@ -103,6 +103,7 @@ def showRes : Res → String
   | .done => "done"
   | .env id => s!"env {id}"
   | .code c => s!"c{c}"
+  | .nocode => "cnil"
   | .burnt n => s!"ok b{n}"
   | .bad => "bad-trace"
 
@@ -160,9 +161,10 @@ def step (s : St) (line : String) : St × String :=
     | some id, some n => if s.started then (s, "bad-op") else ({ s with base := { s.base with bal := upd s.base.bal id n } }, "ok")
     | _, _ => (s, "bad-op")
   | ["i", "con", id, st, code] =>
-    match id.toNat?, parseInt st, code.toNat? with
-    | some id, some st, some code =>
-      if s.started then (s, "bad-op") else ({ s with base := { s.base with con := upd s.base.con id (some ⟨st, code⟩) } }, "ok")
+    match id.toNat?, (if st = "nil" then some (0 : Int) else parseInt st), code.toNat? with
+    | some id, some stv, some code =>
+      if s.started then (s, "bad-op") else
+      ({ s with base := { s.base with con := upd s.base.con id (some ⟨stv, code⟩), stakeNil := upd s.base.stakeNil id (st = "nil") } }, "ok")
     | _, _, _ => (s, "bad-op")
   | ["i", "st", id, k, v] =>
     match id.toNat? with
@@ -196,6 +198,12 @@ def step (s : St) (line : String) : St × String :=
         match parseECall rest with
         | some c =>
           let (e', r) := s.e.step c
+          if rest = ["rd", "discrimination"] && r == .ok then
+            -- `DiscriminationFlags` = `AddGas(ReadStateGas)` then `e.Epoch()` = `AddGas(ReadGlobalStateGas)`: two calls
+            let c2 := ECall.rd ReadGlobalStateGas
+            let (e2, r2) := e'.step c2
+            ({ s with e := e2, etrace := c2 :: c :: s.etrace }, s!"{showRes r2} g{e2.gas}")
+          else
           ({ s with e := e', etrace := c :: s.etrace }, s!"{showRes r} g{e'.gas}")
         | none => (s, "bad-op")
   | ["end", verdict, raw] =>
